@@ -3,6 +3,7 @@ from __future__ import annotations
 
 import types
 
+import spnego.exceptions
 import spnego.iov
 from dpapi_ng._rpc import _auth, _pdu
 
@@ -15,8 +16,10 @@ from .world import seq_eq
 BT = spnego.iov.BufferType
 
 
-class SealError(Exception):
-    """the security context rejected the message (stands for spnego's SpnegoError / BadMICError)"""
+def SealError(msg=""):
+    """the security context rejected the message: the exception pyspnego raises for a bad signature, so that handlers written against
+    spnego.exceptions.SpnegoError see it"""
+    return spnego.exceptions.BadMICError(context_msg=msg)
 
 
 def _norm(buf):
